@@ -3,7 +3,7 @@
    embedding lemmas; the induction over the token tree and the Markdown/RST renderers are covered by the
    oracle only. *)
 From Coq Require Import ZArith List Bool Lia.
-From Verif Require Import PyStr Util UtilGen UtilProofs Tmpl HtmlRender TmplCheck TmplBalance TmplGen C18 Inline Block Doc HtmlDoc HtmlDocProofs HtmlWellNested HtmlLeaves Entry Rx RxAnalysis RxSub RxSubProofs RxGen MdRender MdDoc MdProofs Normalize NormalizeGen UnicodeGen.
+From Verif Require Import PyStr Util UtilGen UtilProofs Tmpl HtmlRender TmplCheck TmplBalance TmplGen C18 Inline Block Doc HtmlDoc HtmlDocProofs HtmlWellNested HtmlLeaves Entry Rx RxAnalysis RxSub RxSubProofs RxGen MdRender MdDoc MdProofs RstDoc RstProofs MdRenderGen Normalize NormalizeGen UnicodeGen.
 Import ListNotations.
 Open Scope Z_scope.
 
@@ -166,8 +166,61 @@ Example C06_markdown_not_vacuous :
   end.
 Proof. vm_compute. reflexivity. Qed.
 
+(* ---- the RST renderer (model coq/Model/RstDoc.v of renderers/rst.py and _list.py over the core AST; tied by skeletons
+   with constants, the regenerated marker table and image prefix, and the RST correspondence run of this check): for EVERY
+   document on which the renderer does not raise, the word characters of all text, code-span, code-block and HTML-block
+   leaves of the AST, in document order, are a subsequence of those of the output.  PARTIAL in two respects, both stated:
+   (1) "word characters" are the letters and digits that do not occur in the word "linebreak": the renderer marks hard
+   breaks in band with the text "<linebreak>" and splits paragraphs on it, so those letters can vanish (known finding
+   rst-linebreak-marker-in-band, refuted for the full alphabet just below); (2) inline HTML is dropped by design and the
+   alternative text of an image is printed in a substitution definition at the end of the document, so neither is a leaf
+   of this statement. ---- *)
+Definition rst_keep : list Z := List.filter (fun c => negb (memc c s_linebreak)) alnum.
+Definition rst_letters (s : list Z) : list Z := proj rst_keep s.
+
+Theorem C06_rst_output_keeps_every_leaf_partial : forall hw s out, rst_x hw s = Ok out ->
+  exists ast, doc_parse_x false hw s = Ok ast /\
+              subseq (flat_map (fun x => rst_letters x) (flat_map RstProofs.nleaves ast)) (rst_letters out).
+Proof.
+  intros hw s out H. unfold rst_x, bind in H. destruct (doc_parse_x false hw s) as [ast| |]; try discriminate.
+  exists ast. split; [reflexivity|].
+  destruct (rst_doc U (is_ws T) rx_util__strip_end_re ast) as [o|] eqn:E; [|discriminate]. inversion H; subst out.
+  apply (rst_doc_keeps_leaves U (is_ws T) rx_util__strip_end_re rst_keep); try exact E; vm_compute; reflexivity.
+Qed.
+
+(* the document "> a1 *c2*" followed by "- `f3` ![g4](u)" : leaves a1, c2, f3 (g4 is an alternative text) *)
+Example C06_rst_not_vacuous :
+  match doc_parse_x false false [62; 32; 97; 49; 32; 42; 99; 50; 42; 10; 10; 45; 32; 96; 102; 51; 96; 32; 33; 91; 103; 52; 93; 40; 117; 41; 10] with
+  | Ok ast => flat_map (fun x => rst_letters x) (flat_map RstProofs.nleaves ast) = [49; 99; 50; 102; 51]
+              /\ exists out, rst_x false [62; 32; 97; 49; 32; 42; 99; 50; 42; 10; 10; 45; 32; 96; 102; 51; 96; 32; 33; 91; 103; 52; 93; 40; 117; 41; 10] = Ok out
+  | _ => False
+  end.
+Proof. vm_compute. split; [reflexivity|eexists; reflexivity]. Qed.
+
+(* the same statement for ALL letters and digits is false of the faithful model (and of the code: known finding
+   rst-linebreak-marker-in-band, replayed on the implementation by every run): "a \<linebreak> b" has the text leaves
+   "a ", "<", "linebreak> b" and the output "a  b" *)
+Lemma subseq_length a b : subseq a b -> (length a <= length b)%nat.
+Proof. induction 1; cbn; lia. Qed.
+Example C06_rst_all_letters_refuted :
+  exists s ast out, doc_parse_x false false s = Ok ast /\ rst_x false s = Ok out /\
+                    ~ subseq (flat_map (fun x => letters x) (flat_map RstProofs.nleaves ast)) (letters out).
+Proof.
+  exists [97; 32; 92; 60; 108; 105; 110; 101; 98; 114; 101; 97; 107; 62; 32; 98; 10].
+  eexists. eexists. split; [vm_compute; reflexivity|]. split; [vm_compute; reflexivity|].
+  intros H. apply subseq_length in H. vm_compute in H. lia.
+Qed.
+
+(* the constants of the model are the class attributes HEADING_MARKERS and INLINE_IMAGE_PREFIX of the code *)
+Example C06_rst_constants_tied :
+  map (fun p => heading_marker (fst p)) rst_heading_markers = map (fun p => Some (snd p)) rst_heading_markers
+  /\ map fst rst_heading_markers = [1; 2; 3; 4; 5; 6]%nat /\ rst_image_prefix = s_img.
+Proof. vm_compute. repeat split. Qed.
+
 Print Assumptions C06_templates_balanced.
 Print Assumptions C06_markdown_output_keeps_every_leaf.
 Print Assumptions C06_whole_document_shows_every_leaf_in_order.
 Print Assumptions C06_leaves_escaped_once.
 Print Assumptions C06_whole_document_is_well_nested.
+Print Assumptions C06_rst_output_keeps_every_leaf_partial.
+Print Assumptions C06_rst_all_letters_refuted.
